@@ -87,6 +87,19 @@ def units(tier):
     for order in RECURSIVE_ORDERS:
         for where in ("codec", "field", "optional_field", "defaulted_none_field", "list_field"):
             out.append((("recalias", order, where), tier))
+    # Optional ELEMENTS of a collection that sits in a nullable position itself (Optional field / Optional member): the inner
+    # None guard must not depend on the outer one
+    # (ordered collections only: the comparison of a set's serialization is order-sensitive and a copied set of dates need not
+    # iterate like the original - a harness artefact met when set / frozenset were first included here)
+    for coll in ("list", "tuplevar", "deque", "seq"):
+        for leaf in ("int", "date", "str", "uuid", "enum_str"):
+            inner = (coll, ("opt", L(leaf)))
+            out.append((("opt", inner), tier))
+            out.append((("list", ("opt", inner)), tier))
+            out.append((("union", inner, L("none"), L("bool")), tier))
+    for leaf in ("int", "date", "uuid"):
+        for m in ("dict", "mapping", "ordered", "chain", "defaultdict"):
+            out.append((("opt", (m, L("str"), ("opt", L(leaf)))), tier))
     for lit in LITERALS:
         out.append((lit, tier))
         out.append((("list", lit), tier))
